@@ -9,7 +9,9 @@ import (
 	"fmt"
 	"io"
 	"io/ioutil"
+	"runtime"
 	"sync"
+	"time"
 )
 
 var errVfInjected = errors.New("verif: injected Keep write failure")
@@ -34,6 +36,8 @@ type vfStore struct {
 	onlyBg      bool // inject only into writes started outside a save
 	onlySave    bool // inject only into writes started during a save
 	healed      bool
+	failShape   int // what a failing PutB returns besides the error
+	slowPuts    int // >0: every PutB yields this many times first, so that writes overlap
 	inSave      bool
 	nFailed     int
 	nFailedSave int // failures injected into writes that started during the current save
@@ -91,6 +95,12 @@ func (s *vfStore) ReadAt(locator string, p []byte, off int) (int, error) {
 }
 
 func (s *vfStore) PutB(p []byte) (string, int, error) {
+	for i := 0; i < s.slowPuts; i++ {
+		runtime.Gosched()
+		if i%8 == 7 {
+			time.Sleep(20 * time.Microsecond)
+		}
+	}
 	if g := s.gate; g != nil {
 		if err := g(p); err != nil {
 			return "", 0, err
@@ -120,6 +130,16 @@ func (s *vfStore) PutB(p []byte) (string, int, error) {
 		s.nFailed++
 		if inSave {
 			s.nFailedSave++
+		}
+		// A failed Keep write may still report some replicas and a
+		// locator (keepclient returns the count actually stored together
+		// with InsufficientReplicasError); the block is not stored here,
+		// and the error is what counts.
+		switch s.failShape % 3 {
+		case 1:
+			return "", 1, errVfInjected
+		case 2:
+			return fmt.Sprintf("%x+%d", md5.Sum(p), len(p)), 1, errVfInjected
 		}
 		return "", 0, errVfInjected
 	}
